@@ -1,11 +1,1233 @@
-// Package c09 - correspondence harness for C09 (stub: not built yet).
+// Package c09 - correspondence harness for C09 (only well-formed trust policy documents are
+// accepted).
+//
+// Documents of both kinds are produced from a grammar of valid documents, edited by zero, one
+// or two rule-violating operators (one operator per rule of the property, plus a few benign
+// edits), or assembled at random from pools of good and bad fragments. Every document is run
+// through the real code three ways - Validate() on the struct, Validate() after a JSON round
+// trip, verifier.NewVerifierWithOptions - and, when accepted, every statement's
+// GetVerificationLevel() is recorded. A second stream checks the Lean recognisers of the three
+// regular expressions against Go's regexp (the expression texts are read from the tree under
+// test) and validateRegistryScopeFormat as a whole through a one-statement document.
 package c09
 
 import (
-	"errors"
+	"context"
+	"crypto/x509"
+	"encoding/json"
+	"fmt"
+	"go/ast"
+	"go/parser"
+	"go/token"
+	"os"
+	"path/filepath"
+	"regexp"
+	"sort"
+	"strconv"
+	"strings"
+	"unicode/utf8"
 
+	ldapv3 "github.com/go-ldap/ldap/v3"
+	"github.com/notaryproject/notation-go/internal/file"
+	"github.com/notaryproject/notation-go/verifier"
+	"github.com/notaryproject/notation-go/verifier/trustpolicy"
+	"github.com/notaryproject/notation-go/verifier/truststore"
 	"github.com/notaryproject/notation-go/xverif/common"
 )
 
+// ---- JSON shapes of Lean's Input / Obs ---------------------------------------------------
+
+type KV struct {
+	Key string `json:"key"`
+	Val string `json:"val"`
+}
+
+type Attr struct {
+	Typ string `json:"typ"`
+	Val string `json:"val"`
+}
+
+type Identity struct {
+	Raw string     `json:"raw"`
+	DN  *[][]Attr `json:"dn"`
+}
+
+type Statement struct {
+	Name            string     `json:"name"`
+	Level           string     `json:"level"`
+	Override        []KV       `json:"override"`
+	VerifyTimestamp string     `json:"verifyTimestamp"`
+	TrustStores     []string   `json:"trustStores"`
+	Identities      []Identity `json:"identities"`
+	Scopes          []string   `json:"scopes"`
+	IsGlobal        bool       `json:"isGlobal"`
+}
+
+type Doc struct {
+	Version    string      `json:"version"`
+	Statements []Statement `json:"statements"`
+}
+
+type Input struct {
+	Kind string `json:"kind"`
+	Doc  Doc    `json:"doc"`
+	Rx   string `json:"rx"`
+	Text string `json:"text"`
+}
+
+type Obs struct {
+	OkStruct   bool   `json:"okStruct"`
+	OkJson     bool   `json:"okJson"`
+	OkVerifier bool   `json:"okVerifier"`
+	Levels     [][]KV `json:"levels"`
+}
+
+// ---- abstract documents before concretisation --------------------------------------------
+
+// stmt is the generator's view of a statement: identities are plain strings.
+type stmt struct {
+	name     string
+	level    string
+	override map[string]string
+	vts      string
+	stores   []string
+	ids      []string
+	scopes   []string
+	global   bool
+}
+
+type doc struct {
+	kind    string // "oci" | "blob"
+	version string
+	stmts   []stmt
+}
+
+func (d doc) clone() doc {
+	out := doc{kind: d.kind, version: d.version}
+	for _, s := range d.stmts {
+		c := s
+		c.override = map[string]string{}
+		for k, v := range s.override {
+			c.override[k] = v
+		}
+		c.stores = append([]string{}, s.stores...)
+		c.ids = append([]string{}, s.ids...)
+		c.scopes = append([]string{}, s.scopes...)
+		out.stmts = append(out.stmts, c)
+	}
+	return out
+}
+
+// dummy trust store for NewVerifierWithOptions
+type noStore struct{}
+
+func (noStore) GetCertificates(ctx context.Context, storeType truststore.Type, namedStore string) ([]*x509.Certificate, error) {
+	return nil, nil
+}
+
+// ---- running the real code ------------------------------------------------------------------
+
+func sigVer(s stmt) trustpolicy.SignatureVerification {
+	sv := trustpolicy.SignatureVerification{VerificationLevel: s.level, VerifyTimestamp: trustpolicy.TimestampOption(s.vts)}
+	if len(s.override) > 0 {
+		sv.Override = map[trustpolicy.ValidationType]trustpolicy.ValidationAction{}
+		for k, v := range s.override {
+			sv.Override[trustpolicy.ValidationType(k)] = trustpolicy.ValidationAction(v)
+		}
+	}
+	return sv
+}
+
+func levelObs(sv trustpolicy.SignatureVerification) []KV {
+	lv, err := sv.GetVerificationLevel()
+	out := []KV{}
+	if err != nil || lv == nil {
+		return out
+	}
+	for k, v := range lv.Enforcement {
+		out = append(out, KV{string(k), string(v)})
+	}
+	sort.Slice(out, func(i, j int) bool { return out[i].Key < out[j].Key })
+	return out
+}
+
+// observe runs the three acceptance paths for one document.
+func observe(d doc) Obs {
+	o := Obs{Levels: [][]KV{}}
+	var svs []trustpolicy.SignatureVerification
+	switch d.kind {
+	case "oci":
+		pd := &trustpolicy.OCIDocument{Version: d.version}
+		for _, s := range d.stmts {
+			pd.TrustPolicies = append(pd.TrustPolicies, trustpolicy.OCITrustPolicy{Name: s.name, SignatureVerification: sigVer(s),
+				TrustStores: s.stores, TrustedIdentities: s.ids, RegistryScopes: s.scopes})
+		}
+		o.OkStruct = pd.Validate() == nil
+		raw, err := json.Marshal(pd)
+		if err != nil {
+			panic(err)
+		}
+		var back trustpolicy.OCIDocument
+		if err := json.Unmarshal(raw, &back); err != nil {
+			panic(err)
+		}
+		o.OkJson = back.Validate() == nil
+		var fresh trustpolicy.OCIDocument
+		if err := json.Unmarshal(raw, &fresh); err != nil {
+			panic(err)
+		}
+		_, err = verifier.NewVerifierWithOptions(noStore{}, verifier.VerifierOptions{OCITrustPolicy: &fresh})
+		o.OkVerifier = err == nil
+		for _, p := range pd.TrustPolicies {
+			svs = append(svs, p.SignatureVerification)
+		}
+	case "blob":
+		pd := &trustpolicy.BlobDocument{Version: d.version}
+		for _, s := range d.stmts {
+			pd.TrustPolicies = append(pd.TrustPolicies, trustpolicy.BlobTrustPolicy{Name: s.name, SignatureVerification: sigVer(s),
+				TrustStores: s.stores, TrustedIdentities: s.ids, GlobalPolicy: s.global})
+		}
+		o.OkStruct = pd.Validate() == nil
+		raw, err := json.Marshal(pd)
+		if err != nil {
+			panic(err)
+		}
+		var back trustpolicy.BlobDocument
+		if err := json.Unmarshal(raw, &back); err != nil {
+			panic(err)
+		}
+		o.OkJson = back.Validate() == nil
+		var fresh trustpolicy.BlobDocument
+		if err := json.Unmarshal(raw, &fresh); err != nil {
+			panic(err)
+		}
+		_, err = verifier.NewVerifierWithOptions(noStore{}, verifier.VerifierOptions{BlobTrustPolicy: &fresh})
+		o.OkVerifier = err == nil
+		for _, p := range pd.TrustPolicies {
+			svs = append(svs, p.SignatureVerification)
+		}
+	}
+	if o.OkStruct {
+		for _, sv := range svs {
+			o.Levels = append(o.Levels, levelObs(sv))
+		}
+	}
+	return o
+}
+
+// abstract builds the Lean input: identities carry go-ldap's answer for the text after the
+// first ':'. ok=false when some text is not valid UTF-8 (cannot be sent as JSON faithfully).
+func abstract(d doc) (Input, bool) {
+	in := Input{Kind: d.kind, Doc: Doc{Version: d.version, Statements: []Statement{}}}
+	valid := utf8.ValidString(d.version)
+	for _, s := range d.stmts {
+		st := Statement{Name: s.name, Level: s.level, Override: []KV{}, VerifyTimestamp: s.vts,
+			TrustStores: append([]string{}, s.stores...), Identities: []Identity{}, Scopes: append([]string{}, s.scopes...), IsGlobal: s.global}
+		if d.kind == "blob" {
+			st.Scopes = []string{}
+		} else {
+			st.IsGlobal = false
+		}
+		valid = valid && utf8.ValidString(s.name) && utf8.ValidString(s.level) && utf8.ValidString(s.vts)
+		for k, v := range s.override {
+			st.Override = append(st.Override, KV{k, v})
+			valid = valid && utf8.ValidString(k) && utf8.ValidString(v)
+		}
+		sort.Slice(st.Override, func(i, j int) bool { return st.Override[i].Key < st.Override[j].Key })
+		for _, x := range append(append([]string{}, s.stores...), s.scopes...) {
+			valid = valid && utf8.ValidString(x)
+		}
+		for _, id := range s.ids {
+			valid = valid && utf8.ValidString(id)
+			ident := Identity{Raw: id}
+			if _, value, found := strings.Cut(id, ":"); found {
+				if dn, err := ldapv3.ParseDN(value); err == nil && dn != nil {
+					rdns := [][]Attr{}
+					for _, r := range dn.RDNs {
+						attrs := []Attr{}
+						for _, a := range r.Attributes {
+							attrs = append(attrs, Attr{a.Type, a.Value})
+							valid = valid && utf8.ValidString(a.Type) && utf8.ValidString(a.Value)
+						}
+						rdns = append(rdns, attrs)
+					}
+					ident.DN = &rdns
+				}
+			}
+			st.Identities = append(st.Identities, ident)
+		}
+		in.Doc.Statements = append(in.Doc.Statements, st)
+	}
+	return in, valid
+}
+
+// ---- grammar of valid documents -------------------------------------------------------------
+
+type gen struct {
+	c *common.Ctx
+}
+
+func (g *gen) n(k int) int { return g.c.Rand.Intn(k) }
+func (g *gen) pick(xs ...string) string {
+	return xs[g.n(len(xs))]
+}
+func (g *gen) chance(p float64) bool { return g.c.Rand.Float64() < p }
+
+var levels = []string{"strict", "permissive", "audit", "skip"}
+var storeTypes = []string{"ca", "signingAuthority", "tsa"}
+
+func (g *gen) fileName() string {
+	const al = "abcXYZ019_.-"
+	for {
+		k := 1 + g.n(6)
+		var b strings.Builder
+		for i := 0; i < k; i++ {
+			b.WriteByte(al[g.n(len(al))])
+		}
+		if s := b.String(); s != "." && s != ".." {
+			return s
+		}
+	}
+}
+
+func (g *gen) label(al string, inner string) string {
+	k := 1 + g.n(4)
+	var b strings.Builder
+	for i := 0; i < k; i++ {
+		if inner != "" && i > 0 && i < k-1 && g.chance(0.3) {
+			b.WriteByte(inner[g.n(len(inner))])
+		} else {
+			b.WriteByte(al[g.n(len(al))])
+		}
+	}
+	return b.String()
+}
+
+func (g *gen) domain() string {
+	const al = "abzAZ09"
+	var parts []string
+	for i := 0; i <= g.n(3); i++ {
+		parts = append(parts, g.label(al, "-"))
+	}
+	d := strings.Join(parts, ".")
+	if g.chance(0.3) {
+		d += ":" + strconv.Itoa(g.n(70000))
+	}
+	return d
+}
+
+func (g *gen) repoComponent() string {
+	const al = "abz09"
+	s := g.label(al, "")
+	for i := 0; i < g.n(3); i++ {
+		sep := g.pick(".", "_", "__", "-", "--", "---")
+		s += sep + g.label(al, "")
+	}
+	return s
+}
+
+func (g *gen) repository() string {
+	var parts []string
+	for i := 0; i <= g.n(3); i++ {
+		parts = append(parts, g.repoComponent())
+	}
+	return strings.Join(parts, "/")
+}
+
+func (g *gen) scope() string { return g.domain() + "/" + g.repository() }
+
+// escape a DN attribute value so that it survives RFC 4514 parsing
+func (g *gen) dnValue(v string) string {
+	var b strings.Builder
+	for i, r := range v {
+		switch {
+		case strings.ContainsRune(`,+"\<>;=`, r):
+			b.WriteByte('\\')
+			b.WriteRune(r)
+		case r == '#' && i == 0:
+			b.WriteString(`\#`)
+		case r == ' ' && (i == 0 || i == len(v)-1):
+			b.WriteString(`\ `)
+		case r < 0x80 && g.chance(0.05):
+			fmt.Fprintf(&b, `\%02x`, r)
+		default:
+			b.WriteRune(r)
+		}
+	}
+	return b.String()
+}
+
+type rdn struct{ typ, val string }
+
+func (g *gen) renderDN(rdns []rdn) string {
+	var b strings.Builder
+	for i, r := range rdns {
+		if i > 0 {
+			b.WriteString(g.pick(",", ",", ", ", ";", " , "))
+		}
+		b.WriteString(r.typ)
+		b.WriteString(g.pick("=", "=", " = ", "= "))
+		b.WriteString(g.dnValue(r.val))
+	}
+	return b.String()
+}
+
+var dnValues = []string{"US", "WA", "Seattle", "wabbit-networks.io", "Notation, Inc.", "a+b", "x=y", " padded ", "#1", "SecureBuilder", "Ünïcode", "O\"Neil", "a\\b", "DE", "1 Main St;Apt 2", "<x>"}
+
+// a valid DN with a marker value that keeps DNs of one statement from overlapping
+func (g *gen) validDN(marker string) []rdn {
+	out := []rdn{{"C", g.pick("US", "DE", "FR")}, {g.pick("ST", "ST", "S"), g.pick("WA", "CA", "Bayern")}, {"O", marker}}
+	for _, t := range []string{"OU", "CN", "L", "STREET"} {
+		if g.chance(0.35) {
+			out = append(out, rdn{t, dnValues[g.n(len(dnValues))]})
+		}
+	}
+	g.c.Rand.Shuffle(len(out), func(i, j int) { out[i], out[j] = out[j], out[i] })
+	return out
+}
+
+func (g *gen) x509(rdns []rdn) string { return "x509.subject:" + g.renderDN(rdns) }
+
+var namePool = []string{"wabbit-networks-images", "unsigned-image", "s1", "s2", "s3", "p 4", "Ünï", "*", "a:b", "skip", "global"}
+
+func (g *gen) validStatement(kind string, i int, usedScopes map[string]bool, wildcardFree *bool) stmt {
+	s := stmt{name: namePool[i%len(namePool)], override: map[string]string{}}
+	if g.chance(0.3) {
+		s.name = fmt.Sprintf("stmt-%d-%d", i, g.n(1000))
+	}
+	s.level = g.pick("strict", "permissive", "audit", "strict", "skip")
+	s.vts = g.pick("", "", "always", "afterCertExpiry")
+	if s.level != "skip" {
+		for _, t := range []string{"authenticity", "authenticTimestamp", "expiry", "revocation"} {
+			if g.chance(0.2) {
+				s.override[t] = g.pick("log", "enforce")
+				if t == "revocation" && g.chance(0.4) {
+					s.override[t] = "skip"
+				}
+			}
+		}
+		for k := 0; k <= g.n(3); k++ {
+			s.stores = append(s.stores, g.pick(storeTypes...)+":"+g.fileName())
+		}
+		if g.chance(0.15) {
+			s.stores = append(s.stores, s.stores[0]) // duplicates are well-formed
+		}
+		if g.chance(0.3) {
+			s.ids = []string{"*"}
+		} else {
+			if g.chance(0.35) {
+				// a family: the same C, ST, O and one further attribute of a different type each -
+				// incomparable names, none a subset of another
+				base := []rdn{{"C", g.pick("US", "DE")}, {g.pick("ST", "S"), "WA"}, {"O", "family"}}
+				extra := []string{"OU", "CN", "L", "STREET"}
+				g.c.Rand.Shuffle(len(extra), func(i, j int) { extra[i], extra[j] = extra[j], extra[i] })
+				for k := 0; k <= 1+g.n(2); k++ {
+					rd := append(append([]rdn{}, base...), rdn{extra[k], dnValues[g.n(len(dnValues))]})
+					g.c.Rand.Shuffle(len(rd), func(i, j int) { rd[i], rd[j] = rd[j], rd[i] })
+					s.ids = append(s.ids, g.x509(rd))
+				}
+			} else {
+				for k := 0; k <= g.n(3); k++ {
+					s.ids = append(s.ids, g.x509(g.validDN(fmt.Sprintf("org-%d", k))))
+				}
+			}
+			if g.chance(0.2) {
+				s.ids = append(s.ids, g.pick("other:whatever", "x509.subjectAlt:CN=a", "X509.subject:C=US", "email:a@b.c", ":", "k:"))
+			}
+		}
+	}
+	if kind == "oci" {
+		if *wildcardFree && g.chance(0.3) {
+			s.scopes = []string{"*"}
+			*wildcardFree = false
+		} else {
+			for k := 0; k <= g.n(3); k++ {
+				for {
+					sc := g.scope()
+					if !usedScopes[sc] {
+						usedScopes[sc] = true
+						s.scopes = append(s.scopes, sc)
+						break
+					}
+				}
+			}
+		}
+	}
+	return s
+}
+
+func (g *gen) validDoc(kind string) doc {
+	d := doc{kind: kind, version: "1.0"}
+	used := map[string]bool{}
+	wf := true
+	n := 1 + g.n(4)
+	for i := 0; i < n; i++ {
+		d.stmts = append(d.stmts, g.validStatement(kind, i, used, &wf))
+	}
+	if kind == "blob" && g.chance(0.5) {
+		var cand []int
+		for i, s := range d.stmts {
+			if s.level != "skip" {
+				cand = append(cand, i)
+			}
+		}
+		if len(cand) > 0 {
+			d.stmts[cand[g.n(len(cand))]].global = true
+		}
+	}
+	return d
+}
+
+// ---- one operator per rule ---------------------------------------------------------------------
+
+type operator struct {
+	name  string
+	apply func(g *gen, d *doc) bool // false: not applicable to this document
+}
+
+func (g *gen) someStmt(d *doc, pred func(stmt) bool) *stmt {
+	var cand []int
+	for i, s := range d.stmts {
+		if pred(s) {
+			cand = append(cand, i)
+		}
+	}
+	if len(cand) == 0 {
+		return nil
+	}
+	return &d.stmts[cand[g.n(len(cand))]]
+}
+
+func nonSkip(s stmt) bool { return s.level != "skip" }
+func isSkip(s stmt) bool  { return s.level == "skip" }
+func anyStmt(stmt) bool   { return true }
+func hasDN(s stmt) bool {
+	for _, id := range s.ids {
+		if strings.HasPrefix(id, "x509.subject:") {
+			return true
+		}
+	}
+	return false
+}
+
+// onDN replaces one x509 identity of a statement by a new one built by f.
+func onDN(f func(g *gen) string) func(g *gen, d *doc) bool {
+	return func(g *gen, d *doc) bool {
+		s := g.someStmt(d, nonSkip)
+		if s == nil {
+			return false
+		}
+		id := f(g)
+		if len(s.ids) == 0 || (len(s.ids) == 1 && s.ids[0] == "*") {
+			s.ids = []string{id}
+		} else {
+			s.ids[g.n(len(s.ids))] = id
+		}
+		return true
+	}
+}
+
+var badScopes = []string{"", "registry.example.com", "/repo", "registry.example.com/", "registry.example.com/Repo", "registry.example.com/a*b", "*/repo",
+	"reg*.example.com/repo", "**", "https://registry.example.com/repo", "registry.example.com/repo:v1", "registry.example.com/repo@sha256:abc",
+	"registry.example.com/a//b", "registry.example.com/a/", "-reg.example.com/repo", "reg-.example.com/repo", "reg..example.com/repo", "reg.example.com:/repo",
+	"reg.example.com:80a/repo", "reg_x.example.com/repo", "reg.example.com/a___b", "reg.example.com/a._b", "reg.example.com/-a", "reg.example.com/a-", "reg.example.com/a.", "reg.example.com/ä",
+	"reg.example.com/repo\n", "reg.example.com /repo", "é/repo", "*a"}
+
+var badStores = []string{"", "ca", "ca:", ":name", "CA:name", "x509:name", "ca:.", "ca:..", "ca:a/b", "ca:a:b", "ca:a b", "ca:é", "ca :name", " ca:name", "ca:name\n", "tsa:../x", "signingauthority:x", "ca:a\\b", "ca:*"}
+
+var operators = []operator{
+	{"version", func(g *gen, d *doc) bool {
+		d.version = g.pick("", "2.0", "1.0 ", "1", "1.00", "v1.0", "1.0.0")
+		return true
+	}},
+	{"no-statements", func(g *gen, d *doc) bool { d.stmts = nil; return true }},
+	{"duplicate-name", func(g *gen, d *doc) bool {
+		if len(d.stmts) < 2 {
+			used := map[string]bool{}
+			for _, s := range d.stmts {
+				for _, sc := range s.scopes {
+					used[sc] = true
+				}
+			}
+			wf := false
+			d.stmts = append(d.stmts, g.validStatement(d.kind, len(d.stmts), used, &wf))
+		}
+		i := g.n(len(d.stmts))
+		j := (i + 1 + g.n(len(d.stmts)-1)) % len(d.stmts)
+		d.stmts[i].name = d.stmts[j].name
+		return true
+	}},
+	{"empty-name", func(g *gen, d *doc) bool { g.someStmt(d, anyStmt).name = ""; return true }},
+	{"unknown-level", func(g *gen, d *doc) bool {
+		g.someStmt(d, anyStmt).level = g.pick("", "Strict", "custom", "strict ", "SKIP", "none", "enforce")
+		return true
+	}},
+	{"override-on-skip", func(g *gen, d *doc) bool {
+		s := g.someStmt(d, isSkip)
+		if s == nil {
+			s = g.someStmt(d, anyStmt)
+			s.level, s.stores, s.ids = "skip", nil, nil
+			s.global = false
+		}
+		s.override[g.pick("expiry", "revocation", "authenticity")] = g.pick("log", "skip", "enforce")
+		return true
+	}},
+	{"override-integrity", func(g *gen, d *doc) bool {
+		s := g.someStmt(d, nonSkip)
+		if s == nil {
+			return false
+		}
+		s.override["integrity"] = g.pick("enforce", "log", "skip")
+		return true
+	}},
+	{"override-skip-not-revocation", func(g *gen, d *doc) bool {
+		s := g.someStmt(d, nonSkip)
+		if s == nil {
+			return false
+		}
+		s.override[g.pick("authenticity", "authenticTimestamp", "expiry")] = "skip"
+		return true
+	}},
+	{"override-unknown", func(g *gen, d *doc) bool {
+		s := g.someStmt(d, nonSkip)
+		if s == nil {
+			return false
+		}
+		if g.chance(0.5) {
+			s.override[g.pick("", "Integrity", "Expiry", "timestamp", "revocation ")] = g.pick("log", "enforce")
+		} else {
+			s.override[g.pick("expiry", "revocation", "authenticity")] = g.pick("", "Log", "warn", "skip ", "enforced")
+		}
+		return true
+	}},
+	{"verify-timestamp", func(g *gen, d *doc) bool {
+		g.someStmt(d, anyStmt).vts = g.pick("never", "Always", "always ", "aftercertexpiry", "true")
+		return true
+	}},
+	{"missing-stores-or-identities", func(g *gen, d *doc) bool {
+		s := g.someStmt(d, nonSkip)
+		if s == nil {
+			return false
+		}
+		switch g.n(3) {
+		case 0:
+			s.stores = nil
+		case 1:
+			s.ids = nil
+		default:
+			s.stores, s.ids = nil, nil
+		}
+		return true
+	}},
+	{"skip-with-stores-or-identities", func(g *gen, d *doc) bool {
+		s := g.someStmt(d, isSkip)
+		if s == nil {
+			s = g.someStmt(d, anyStmt)
+			s.level, s.override = "skip", map[string]string{}
+			s.global = false
+			if g.chance(0.5) {
+				s.stores = nil
+			} else {
+				s.ids = nil
+			}
+			return true
+		}
+		if g.chance(0.5) {
+			s.stores = []string{"ca:x"}
+		} else {
+			s.ids = []string{g.pick("*", "x509.subject:C=US,ST=WA,O=x")}
+		}
+		return true
+	}},
+	{"skip-keeps-everything", func(g *gen, d *doc) bool {
+		// a complete non-skip statement whose level is switched to skip
+		s := g.someStmt(d, nonSkip)
+		if s == nil {
+			return false
+		}
+		s.level = "skip"
+		s.global = false
+		if len(s.override) == 0 && g.chance(0.5) {
+			s.override[g.pick("revocation", "expiry", "authenticity")] = g.pick("log", "enforce")
+		}
+		return true
+	}},
+	{"bad-trust-store", func(g *gen, d *doc) bool {
+		s := g.someStmt(d, nonSkip)
+		if s == nil {
+			return false
+		}
+		bad := badStores[g.n(len(badStores))]
+		if len(s.stores) == 0 || g.chance(0.4) {
+			s.stores = append(s.stores, bad)
+		} else {
+			s.stores[g.n(len(s.stores))] = bad
+		}
+		return true
+	}},
+	{"wildcard-identity-not-alone", func(g *gen, d *doc) bool {
+		s := g.someStmt(d, nonSkip)
+		if s == nil {
+			return false
+		}
+		if len(s.ids) == 0 || (len(s.ids) == 1 && s.ids[0] == "*") {
+			s.ids = []string{"*", g.pick("*", "x509.subject:C=US,ST=WA,O=x", "other:x")}
+		} else {
+			k := g.n(len(s.ids) + 1)
+			s.ids = append(s.ids[:k], append([]string{"*"}, s.ids[k:]...)...)
+		}
+		return true
+	}},
+	{"malformed-identity", func(g *gen, d *doc) bool {
+		s := g.someStmt(d, nonSkip)
+		if s == nil {
+			return false
+		}
+		bad := g.pick("", "x509.subject", "no separator", "x509.subject:", "**", " *", "C=US,ST=WA,O=x")
+		if len(s.ids) == 1 && s.ids[0] == "*" {
+			s.ids = []string{bad}
+		} else if len(s.ids) == 0 || g.chance(0.5) {
+			s.ids = append(s.ids, bad)
+		} else {
+			s.ids[g.n(len(s.ids))] = bad
+		}
+		return true
+	}},
+	{"dn-missing-mandatory", onDN(func(g *gen) string {
+		rd := g.validDN("lonely")
+		drop := g.pick("C", "ST", "O")
+		var out []rdn
+		for _, r := range rd {
+			t := r.typ
+			if t == "S" {
+				t = "ST"
+			}
+			if t == drop {
+				switch g.n(4) {
+				case 0: // present but empty
+					out = append(out, rdn{r.typ, ""})
+				case 1: // lower case type is another attribute
+					out = append(out, rdn{strings.ToLower(r.typ), r.val})
+				}
+				continue
+			}
+			out = append(out, r)
+		}
+		return g.x509(out)
+	})},
+	{"dn-duplicate-attribute", onDN(func(g *gen) string {
+		rd := g.validDN("twice")
+		k := g.n(len(rd))
+		extra := rd[k]
+		if g.chance(0.5) {
+			extra.val = "other"
+		}
+		if extra.typ == "ST" && g.chance(0.5) {
+			extra.typ = "S"
+		} else if extra.typ == "S" && g.chance(0.5) {
+			extra.typ = "ST"
+		}
+		rd = append(rd, extra)
+		return g.x509(rd)
+	})},
+	{"dn-multi-valued", onDN(func(g *gen) string {
+		rd := g.validDN("multi")
+		s := g.renderDN(rd)
+		return "x509.subject:" + s + g.pick("+CN=x", "+UID=7", " + L=here")
+	})},
+	{"dn-hash-value", onDN(func(g *gen) string {
+		rd := g.validDN("hash")
+		return g.x509(rd) + g.pick(",CN=#0c0568656c6c6f", ",CN=#zz", ",1.2.3=#0401ff")
+	})},
+	{"dn-unparsable", onDN(func(g *gen) string {
+		return "x509.subject:" + g.pick("C=US,ST=WA,O", "=US", "C=US,,ST=WA,O=x", "C=US,ST=WA,O=x\\", "C=US,ST=WA,O=x\\zz", ",", "C=US;ST=WA;O=x;", " ", "CUS", "C=US,ST=WA,O=x,CN=\\4")
+	})},
+	{"dn-overlap", func(g *gen, d *doc) bool {
+		s := g.someStmt(d, hasDN)
+		if s == nil {
+			s = g.someStmt(d, nonSkip)
+			if s == nil {
+				return false
+			}
+			s.ids = []string{g.x509(g.validDN("base"))}
+		}
+		var dns []string
+		for _, id := range s.ids {
+			if strings.HasPrefix(id, "x509.subject:") {
+				dns = append(dns, id)
+			}
+		}
+		base := dns[g.n(len(dns))]
+		var add string
+		switch g.n(4) {
+		case 0: // the same identity again
+			add = base
+		case 1: // a superset
+			add = base + ",UID=" + strconv.Itoa(g.n(100))
+		case 2: // same attributes, different spelling
+			add = strings.Replace(base, "x509.subject:", "x509.subject: ", 1)
+		default: // same set in another order
+			dn, err := ldapv3.ParseDN(strings.TrimPrefix(base, "x509.subject:"))
+			if err != nil || len(dn.RDNs) == 0 {
+				add = base
+			} else {
+				var rd []rdn
+				for i := len(dn.RDNs) - 1; i >= 0; i-- {
+					a := dn.RDNs[i].Attributes[0]
+					rd = append(rd, rdn{a.Type, a.Value})
+				}
+				add = g.x509(rd)
+			}
+		}
+		k := g.n(len(s.ids) + 1)
+		s.ids = append(s.ids[:k], append([]string{add}, s.ids[k:]...)...)
+		return true
+	}},
+	{"no-scopes", func(g *gen, d *doc) bool {
+		if d.kind != "oci" {
+			return false
+		}
+		g.someStmt(d, anyStmt).scopes = nil
+		return true
+	}},
+	{"wildcard-scope-not-alone", func(g *gen, d *doc) bool {
+		if d.kind != "oci" {
+			return false
+		}
+		s := g.someStmt(d, anyStmt)
+		if len(s.scopes) == 1 && s.scopes[0] == "*" {
+			s.scopes = append(s.scopes, g.pick("*", "fresh.example.com/x"))
+		} else {
+			k := g.n(len(s.scopes) + 1)
+			s.scopes = append(s.scopes[:k], append([]string{"*"}, s.scopes[k:]...)...)
+		}
+		return true
+	}},
+	{"invalid-scope", func(g *gen, d *doc) bool {
+		if d.kind != "oci" {
+			return false
+		}
+		s := g.someStmt(d, anyStmt)
+		bad := badScopes[g.n(len(badScopes))]
+		if len(s.scopes) == 0 || (len(s.scopes) == 1 && s.scopes[0] == "*") {
+			s.scopes = []string{bad}
+		} else if g.chance(0.5) {
+			s.scopes[g.n(len(s.scopes))] = bad
+		} else {
+			s.scopes = append(s.scopes, bad)
+		}
+		return true
+	}},
+	{"duplicate-scope", func(g *gen, d *doc) bool {
+		if d.kind != "oci" {
+			return false
+		}
+		src := g.someStmt(d, func(s stmt) bool { return len(s.scopes) > 0 })
+		if src == nil {
+			return false
+		}
+		sc := src.scopes[g.n(len(src.scopes))]
+		dst := g.someStmt(d, anyStmt) // may be the same statement
+		if sc == "*" && len(dst.scopes) > 0 && dst != src {
+			dst.scopes = []string{"*"} // two wildcard statements
+		} else {
+			dst.scopes = append(dst.scopes, sc)
+		}
+		return true
+	}},
+	{"two-global", func(g *gen, d *doc) bool {
+		if d.kind != "blob" {
+			return false
+		}
+		if len(d.stmts) < 2 {
+			wf := false
+			d.stmts = append(d.stmts, g.validStatement(d.kind, len(d.stmts), map[string]bool{}, &wf))
+		}
+		i := g.n(len(d.stmts))
+		j := (i + 1 + g.n(len(d.stmts)-1)) % len(d.stmts)
+		for _, k := range []int{i, j} {
+			d.stmts[k].global = true
+			if d.stmts[k].level == "skip" && g.chance(0.7) {
+				d.stmts[k].level = "audit"
+				d.stmts[k].stores = []string{"ca:g"}
+				d.stmts[k].ids = []string{"*"}
+			}
+		}
+		return true
+	}},
+	{"global-skip", func(g *gen, d *doc) bool {
+		if d.kind != "blob" {
+			return false
+		}
+		for i := range d.stmts {
+			d.stmts[i].global = false
+		}
+		s := g.someStmt(d, isSkip)
+		if s == nil {
+			s = g.someStmt(d, anyStmt)
+			s.level, s.stores, s.ids, s.override = "skip", nil, nil, map[string]string{}
+		}
+		s.global = true
+		return true
+	}},
+	// benign edits: the document stays well-formed
+	{"benign-duplicate-store", func(g *gen, d *doc) bool {
+		s := g.someStmt(d, nonSkip)
+		if s == nil || len(s.stores) == 0 {
+			return false
+		}
+		s.stores = append(s.stores, s.stores[g.n(len(s.stores))])
+		return true
+	}},
+	{"benign-foreign-identity", func(g *gen, d *doc) bool {
+		s := g.someStmt(d, func(s stmt) bool { return nonSkip(s) && !(len(s.ids) == 1 && s.ids[0] == "*") && len(s.ids) > 0 })
+		if s == nil {
+			return false
+		}
+		s.ids = append(s.ids, g.pick("plugin.id:anything at all", "x509.subject2:C=US", "a:*"))
+		return true
+	}},
+}
+
+// applyOp applies an operator; operators other than the two document-level ones need a statement.
+func applyOp(op operator, g *gen, d *doc) bool {
+	if len(d.stmts) == 0 && op.name != "version" && op.name != "no-statements" {
+		return false
+	}
+	return op.apply(g, d)
+}
+
+// ---- random assembly ---------------------------------------------------------------------------
+
+func (g *gen) randomDoc(kind string) doc {
+	d := doc{kind: kind, version: g.pick("1.0", "1.0", "1.0", "1.0", "", "1.1")}
+	n := g.n(4)
+	if g.chance(0.8) {
+		n = 1 + g.n(3)
+	}
+	for i := 0; i < n; i++ {
+		s := stmt{override: map[string]string{}}
+		s.name = g.pick("a", "b", "c", "d", "e", "f", "", "a")
+		s.level = g.pick("strict", "permissive", "audit", "skip", "skip", "", "Strict")
+		if g.chance(0.8) {
+			s.level = g.pick("strict", "permissive", "audit", "skip")
+		}
+		s.vts = g.pick("", "", "", "always", "afterCertExpiry", "sometimes")
+		for k := 0; k < g.n(3); k++ {
+			if g.chance(0.5) {
+				s.override[g.pick("integrity", "authenticity", "authenticTimestamp", "expiry", "revocation", "revocation", "other")] = g.pick("enforce", "log", "log", "skip", "other")
+			}
+		}
+		if g.chance(0.8) {
+			s.override = map[string]string{}
+			if g.chance(0.3) {
+				s.override["revocation"] = g.pick("skip", "log")
+			}
+		}
+		empty := s.level == "skip" && g.chance(0.85)
+		if !empty {
+			for k := 0; k < g.n(4); k++ {
+				if g.chance(0.85) {
+					s.stores = append(s.stores, g.pick(storeTypes...)+":"+g.fileName())
+				} else {
+					s.stores = append(s.stores, badStores[g.n(len(badStores))])
+				}
+			}
+			for k := 0; k < g.n(4); k++ {
+				switch g.n(10) {
+				case 0:
+					s.ids = append(s.ids, "*")
+				case 1:
+					s.ids = append(s.ids, g.pick("", "nosep", "x509.subject:", "foo:bar", "x509.subject:CN=only"))
+				case 2:
+					s.ids = append(s.ids, g.x509([]rdn{{"C", "US"}, {"ST", "WA"}, {"O", g.pick("x", "y")}}))
+				case 3:
+					s.ids = append(s.ids, g.x509([]rdn{{"C", "US"}, {"S", "WA"}, {"O", g.pick("x", "y")}, {"CN", g.pick("n", "m", "")}}))
+				default:
+					s.ids = append(s.ids, g.x509(g.validDN(g.pick("x", "y", "z", "w", "v"))))
+				}
+			}
+			if g.chance(0.25) {
+				s.ids = []string{"*"}
+			}
+		}
+		if kind == "oci" {
+			for k := 0; k < g.n(3)+g.n(2); k++ {
+				switch g.n(12) {
+				case 0:
+					s.scopes = append(s.scopes, "*")
+				case 1:
+					s.scopes = append(s.scopes, badScopes[g.n(len(badScopes))])
+				case 2:
+					s.scopes = append(s.scopes, g.pick("r.io/a", "r.io/b", "r.io/c"))
+				default:
+					s.scopes = append(s.scopes, g.scope())
+				}
+			}
+			if g.chance(0.1) {
+				s.scopes = []string{"*"}
+			}
+		} else {
+			s.global = g.chance(0.25)
+		}
+		d.stmts = append(d.stmts, s)
+	}
+	return d
+}
+
+// ---- regular expressions ---------------------------------------------------------------------
+
+// scopeRegexes reads the two expressions of validateRegistryScopeFormat from the tree under test.
+func scopeRegexes(repo string) (domain, repository *regexp.Regexp, err error) {
+	fset := token.NewFileSet()
+	f, err := parser.ParseFile(fset, filepath.Join(repo, "verifier/trustpolicy/oci.go"), nil, 0)
+	if err != nil {
+		return nil, nil, err
+	}
+	found := map[string]string{}
+	ast.Inspect(f, func(n ast.Node) bool {
+		fd, ok := n.(*ast.FuncDecl)
+		if !ok {
+			return true
+		}
+		if fd.Name.Name != "validateRegistryScopeFormat" {
+			return false
+		}
+		ast.Inspect(fd.Body, func(n ast.Node) bool {
+			as, ok := n.(*ast.AssignStmt)
+			if !ok || len(as.Lhs) != 1 || len(as.Rhs) != 1 {
+				return true
+			}
+			id, ok := as.Lhs[0].(*ast.Ident)
+			call, ok2 := as.Rhs[0].(*ast.CallExpr)
+			if !ok || !ok2 || len(call.Args) != 1 {
+				return true
+			}
+			if sel, ok := call.Fun.(*ast.SelectorExpr); ok && sel.Sel.Name == "MustCompile" {
+				if bl, ok := call.Args[0].(*ast.BasicLit); ok {
+					if v, err := strconv.Unquote(bl.Value); err == nil {
+						found[id.Name] = v
+					}
+				}
+			}
+			return true
+		})
+		return false
+	})
+	ds, ok1 := found["domainRegexp"]
+	rs, ok2 := found["repositoryRegexp"]
+	if !ok1 || !ok2 {
+		return nil, nil, fmt.Errorf("domainRegexp / repositoryRegexp not found in validateRegistryScopeFormat")
+	}
+	domain, err = regexp.Compile(ds)
+	if err != nil {
+		return nil, nil, err
+	}
+	repository, err = regexp.Compile(rs)
+	return domain, repository, err
+}
+
+func words(alphabet string, maxLen int, f func(string)) {
+	var rec func(prefix string, left int)
+	rec = func(prefix string, left int) {
+		f(prefix)
+		if left == 0 {
+			return
+		}
+		for _, r := range alphabet {
+			rec(prefix+string(r), left-1)
+		}
+	}
+	rec("", maxLen)
+}
+
+func (g *gen) mutate(s string, alphabet string) string {
+	r := []rune(s)
+	a := []rune(alphabet)
+	for k := 0; k <= g.n(2); k++ {
+		switch g.n(4) {
+		case 0:
+			if len(r) > 0 {
+				i := g.n(len(r))
+				r = append(r[:i], r[i+1:]...)
+			}
+		case 1:
+			i := g.n(len(r) + 1)
+			r = append(r[:i], append([]rune{a[g.n(len(a))]}, r[i:]...)...)
+		case 2:
+			if len(r) > 0 {
+				r[g.n(len(r))] = a[g.n(len(a))]
+			}
+		default:
+			if len(r) > 1 {
+				i := g.n(len(r) - 1)
+				r[i], r[i+1] = r[i+1], r[i]
+			}
+		}
+	}
+	return string(r)
+}
+
+func scopeAccepted(text string) bool {
+	pd := &trustpolicy.OCIDocument{Version: "1.0", TrustPolicies: []trustpolicy.OCITrustPolicy{{
+		Name: "only", SignatureVerification: trustpolicy.SignatureVerification{VerificationLevel: "skip"}, RegistryScopes: []string{text}}}}
+	return pd.Validate() == nil
+}
+
+func (g *gen) regexCases(domainRe, repoRe *regexp.Regexp) {
+	c := g.c
+	emit := func(rx, text string, ok bool) {
+		if !utf8.ValidString(text) {
+			return
+		}
+		c.Emit(Input{Kind: "regex", Doc: Doc{Statements: []Statement{}}, Rx: rx, Text: text}, Obs{OkStruct: ok, OkJson: ok, OkVerifier: ok, Levels: [][]KV{}})
+		if ok {
+			c.Count("regex/" + rx + "/match")
+		} else {
+			c.Count("regex/" + rx + "/no-match")
+		}
+	}
+	oracle := map[string]func(string) bool{
+		"fileName":   file.IsValidFileName,
+		"domain":     domainRe.MatchString,
+		"repository": repoRe.MatchString,
+		"scope":      scopeAccepted,
+	}
+	exhaustive := map[string][2]any{ // alphabet, (quick, thorough) length
+		"fileName":   {"aZ0_.-/ :", [2]int{3, 4}},
+		"domain":     {"aZ0-.:_", [2]int{4, 6}},
+		"repository": {"a0._-/A", [2]int{5, 6}},
+		"scope":      {"aA0.-_/:*", [2]int{3, 5}},
+	}
+	for _, rx := range []string{"fileName", "domain", "repository", "scope"} {
+		al := exhaustive[rx][0].(string)
+		lens := exhaustive[rx][1].([2]int)
+		l := lens[0]
+		if c.Thorough() {
+			l = lens[1]
+		}
+		words(al, l, func(w string) { emit(rx, w, oracle[rx](w)) })
+	}
+	n := 1500
+	if c.Thorough() {
+		n = 40000
+	}
+	const noise = "aZ0_.-/:* \n\\é+@#"
+	for i := 0; i < n; i++ {
+		var rx, base string
+		switch g.n(4) {
+		case 0:
+			rx, base = "fileName", g.fileName()
+		case 1:
+			rx, base = "domain", g.domain()
+		case 2:
+			rx, base = "repository", g.repository()
+		default:
+			rx, base = "scope", g.scope()
+		}
+		emit(rx, base, oracle[rx](base))
+		m := g.mutate(base, noise)
+		emit(rx, m, oracle[rx](m))
+	}
+}
+
+// ---- Run ------------------------------------------------------------------------------------------
+
 // Run generates the cases of C09.
-func Run(c *common.Ctx) error { return errors.New("C09: harness not built yet") }
+func Run(c *common.Ctx) error {
+	g := &gen{c: c}
+	repo := os.Getenv("VERIF_REPO")
+	if repo == "" {
+		repo = "/repo"
+	}
+	domainRe, repoRe, err := scopeRegexes(repo)
+	if err != nil {
+		return err
+	}
+
+	emitDoc := func(d doc, tag string) {
+		in, valid := abstract(d)
+		if !valid {
+			c.Count("skipped/not-utf8")
+			return
+		}
+		o := observe(d)
+		c.Emit(in, o)
+		verdict := "rejected"
+		if o.OkStruct {
+			verdict = "accepted"
+		}
+		c.Count(d.kind + "/" + verdict)
+		c.Count("origin/" + tag + "/" + verdict)
+	}
+
+	// fixed witnesses: documents of the repaired defects and of the readings chosen for the property
+	for _, kind := range []string{"oci", "blob"} {
+		base := doc{kind: kind, version: "1.0", stmts: []stmt{{name: "n", level: "strict", override: map[string]string{}, stores: []string{"ca:s"}, ids: []string{"*"}, scopes: []string{"r.io/a"}}}}
+		emitDoc(base, "witness")
+		for _, nm := range []string{".", "..", "...", ".a", "a."} {
+			d := base.clone()
+			d.stmts[0].stores = []string{"ca:" + nm}
+			emitDoc(d, "witness")
+		}
+		d := base.clone()
+		d.stmts[0].level, d.stmts[0].stores, d.stmts[0].ids, d.stmts[0].global = "skip", nil, nil, true
+		emitDoc(d, "witness") // global skip (blob)
+		d = base.clone()
+		d.stmts[0].scopes = []string{"r.io/a", "r.io/a"}
+		emitDoc(d, "witness") // the same scope twice in one statement
+		d = base.clone()
+		d.stmts[0].stores = []string{"ca:s", "ca:s"}
+		emitDoc(d, "witness") // duplicate stores are fine
+		d = base.clone()
+		d.stmts[0].ids = []string{"x509.subject:C=US,ST=WA,O=x", "x509.subject:C=US,ST=WA,O=x"}
+		emitDoc(d, "witness") // identical identities overlap
+		d = base.clone()
+		d.stmts[0].ids = []string{"x509.subject:C=US,ST=WA,O=x,CN=", "x509.subject:C=US,ST=WA,O=x"}
+		emitDoc(d, "witness") // empty-valued attribute (C04 repair)
+		d = base.clone()
+		d.stmts[0].ids = []string{"x509.subject:C=US,ST=WA,O=x,CN=,CN=foo"}
+		emitDoc(d, "witness")
+	}
+
+	// every single operator on a few valid documents, every ordered pair at least once
+	reps := 30
+	pairReps := 5
+	randomDocs := 15000
+	if c.Thorough() {
+		reps, pairReps, randomDocs = 200, 40, 150000
+	}
+	for _, kind := range []string{"oci", "blob"} {
+		for i := 0; i < reps*25; i++ {
+			emitDoc(g.validDoc(kind), "valid")
+		}
+		for _, op := range operators {
+			for i := 0; i < reps*3; i++ {
+				d := g.validDoc(kind)
+				if !applyOp(op, g, &d) {
+					continue
+				}
+				emitDoc(d, "1:"+op.name)
+			}
+		}
+		for _, op1 := range operators {
+			for _, op2 := range operators {
+				for i := 0; i < pairReps; i++ {
+					d := g.validDoc(kind)
+					if !applyOp(op1, g, &d) || !applyOp(op2, g, &d) {
+						continue
+					}
+					emitDoc(d, "2")
+				}
+			}
+		}
+		for i := 0; i < randomDocs; i++ {
+			emitDoc(g.randomDoc(kind), "random")
+		}
+	}
+
+	g.regexCases(domainRe, repoRe)
+
+	c.Note("documents: grammar of valid OCI and blob documents; %d operators (one per rule + 2 benign) applied singly and in every ordered pair; random assembly from good/bad fragment pools; each document through struct Validate, JSON round trip + Validate, verifier.NewVerifierWithOptions; identities carry go-ldap's ParseDN answer. regex: exhaustive short words over small alphabets + grammar-directed and mutated strings against Go regexp compiled from the source text of the tree under test (file.IsValidFileName called directly; scope through a one-statement document).", len(operators))
+	return nil
+}
